@@ -62,6 +62,49 @@ FIRST = {
     "C12_5": ("-", "as C11_4"),
     "C09_5": ("caught", "written against the tree before fix F14, adapted to HEAD"),
     "C10_4": ("caught", "written against the tree before fix F14, adapted to HEAD"),
+    # ---- round 3 (ids _6, _7, _8): agents were told which places rounds 1-2 had changed and asked for OTHER places ----
+    "C01_7": ("other", "C13.graded-blades also serves C01 (a blade named e_ij is the product of its generators in graded mode too)"),
+    "C01_8": ("other", "C15.kw-rekey also serves C01 and C14"),
+    "C02_6": ("other", "C09.name-injective also serves C02 and C08"),
+    "C02_7": ("-", "C09.own-operator-dicts (every algebra object owns operator dictionaries created for it, also after dataclasses.replace)"),
+    "C02_8": ("AE", "a real 7-dimensional representative with a signature that is not laid out 0..,+..,-.. in C02.table"),
+    "C03_6": ("AE", "operands of different grade profiles (rotor x vector, vector x rotor) in C03.table"),
+    "C03_7": ("-", "C11.emission-pairing runs every operator of the registry, with a recorder and with a plain number"),
+    "C03_8": ("other", "C16.positions also serves C02 and C03"),
+    "C04_6": ("other", "the C17 arithmetic rules also serve the properties whose generated code is computed with that arithmetic (C02-C07, C11, C19)"),
+    "C04_7": ("-", "C11.do-compile: recorded result in non-canonical key order"),
+    "C04_8": ("other", "C08.key-provenance also serves C04 and C11"),
+    "C06_7": ("other", "C11.dunder-agreement also serves C03, C05, C06, C07, C16"),
+    "C06_8": ("other", "as C04_6"),
+    "C07_6": ("other", "as C04_6"),
+    "C07_7": ("AE", "C09.value-memo (nothing computed from coefficient values may be memoised on an object that can be updated in place)"),
+    "C07_8": ("AE", "len facts for tree variables; single-blade-operand cell in C07.lambdify-input"),
+    "C08_6": ("other", "C04.grade and C15.accessors also serve C08"),
+    "C08_8": ("other", "as C02_6"),
+    "C09_7": ("-", "C09.value-memo"),
+    "C11_6": ("other", "as C04_6"),
+    "C11_7": ("-", "as C04_7"),
+    "C12_6": ("-", "lambdify cells with an explicit zero among non-zero expressions, and all zeros (C08.emitted-source, also C12)"),
+    "C12_7": ("-", "C12.simp-func (the default simplification is a composition of value-preserving sympy transformations)"),
+    "C12_8": ("other", "C18.expr-placeholders (rewritten as interpretation of the array branch) also serves C12"),
+    "C13_7": ("AE", "dict unpacking in the interpreter; C09.own-operator-dicts"),
+    "C13_8": ("-", "options handed to Algebra.fromname must reach the constructor (C14.named-bases, also C13)"),
+    "C14_6": ("AE", "foreign-algebra variants in C14.algebra-check: same metric / other basis, same (p,q,r) / other signature order"),
+    "C14_7": ("other", "as C01_8"),
+    "C14_8": ("-", "generators as opaque elements in the tree-mode algebra (a wedge of the frame is not the spelled pseudoscalar); C05.polarity also serves C14"),
+    "C15_6": ("other", "C11.grade also serves C15"),
+    "C15_7": ("-", "lazily filled blade dictionary: request sequences on one object, a permuted spelling first (C01.blade-parity, also C09)"),
+    "C15_8": ("other", "C11.coefficient-kind also serves C15"),
+    "C16_6": ("other", "as C06_7"),
+    "C16_7": ("-", "Registry.__call__ cells in C16.operand-kinds (nested callables in any argument)"),
+    "C17_7": ("-", "Polynomial / number cells (odd coefficients divided by 2, 4, 0.5)"),
+    "C17_8": ("-", "C17.tosympy (conversion interpreted with exact rational-function stand-ins for Symbol / Mul / Add)"),
+    "C18_6": ("-", "first columns of the blade matrices are orthonormal (decided in the Kronecker domain; was listed as not decided)"),
+    "C18_7": ("other", "C12.binding-order also serves C18"),
+    "C18_8": ("-", "written before fix F7, adapted to HEAD; module-level decorators are applied once per interpreter, so state a decorator closes over persists across the algebras of C14.matrix-basis"),
+    "C19_6": ("-", "as C17_7 (C17.polynomial-arith also serves C19)"),
+    "C19_7": ("other", "C06.trees also serves C19"),
+    "C20_8": ("-", "single graph function must reach the widget uncalled (C20.subjects)"),
 }
 
 rows = []
